@@ -65,6 +65,8 @@ pub enum Prog {
     TimeRange((u8, TimeLit), (u8, TimeLit)),
     /// written durations followed by a range of two times: `2 hours 5 minutes 11:30 to 13:45`
     DurThenRange(Vec<crate::c10::Part>, TimeLit, TimeLit),
+    /// an amount per unit word, inside arithmetic: `25/hour * 14` <-> `25/saat * 14` (n, percent?, unit 0..7, factor)
+    PerWord(u32, bool, u8, u32),
     /// a date directly followed by a written duration, no operator in between (`12 march 3 days`): (date, count, unit
     /// 0 day 1 week 2 month 3 year, spelling)
     DateThenDur(crate::c09::DateLit, u32, u8, u8),
@@ -138,6 +140,18 @@ impl Prog {
                 vec![def_line(*na, vec![a.tok()]), def_line(*nb, vec![b.tok()]), range_line(name_toks(*na), name_toks(*nb), lang, vec![])]
             }
             Prog::DurThenRange(ps, a, b) => vec![range_line(vec![a.tok()], vec![b.tok()], lang, parts(ps))],
+            Prog::PerWord(n, pct, unit, m) => {
+                let sp = crate::c10::spellings(lang, *unit % 7);
+                let word = sp[0];
+                let mut l = Line::default();
+                let head = if *pct { format!("{}%/{}", n, word) } else { format!("{}/{}", n, word) };
+                l.push(Tok { pre: head, num: None, post: String::new(), class: Class::Other, space: 0 });
+                if !*pct || direct {
+                    l.push(Tok::op('*'));
+                    l.push(Tok::num(NumLit { v: *m as f64, sign: 0, group: false }));
+                }
+                vec![l]
+            }
             Prog::DateThenDur(d, n, u, sp) => {
                 let unit = [crate::c09::Unit::Days, crate::c09::Unit::Weeks, crate::c09::Unit::Months, crate::c09::Unit::Years][*u as usize % 4];
                 let mut l = Line::default();
@@ -320,7 +334,7 @@ impl Prop for Languages {
         }
         // a program: the last line gives what the same line gives written without the names (`a + b + c`, the literals)
         if let (true, Shape::Program(p)) = (acc.ok(), &c.shape) {
-            if !matches!(p, Prog::DurThenRange(..)) {
+            if !matches!(p, Prog::DurThenRange(..) | Prog::PerWord(..)) {
                 for lang in std::iter::once("en".to_string()).chain(langs.iter().cloned()) {
                     let lines = p.lines(&lang, true);
                     let with_names = p.lines(&lang, false);
@@ -397,6 +411,7 @@ impl Prop for Languages {
             Shape::Program(Prog::TimeRange(..)) => "program:range-between-time-names",
             Shape::Program(Prog::DurThenRange(..)) => "durations-then-time-range",
             Shape::Program(Prog::DateThenDur(..)) => "date-then-duration-without-operator",
+            Shape::Program(Prog::PerWord(..)) => "amount-per-unit-word",
         };
         acc.finish(rendered).nt(en_ok && (translated_word || non_number)).class(kind).class_if(translated_word, "has-translated-word").class_if(en_ok, "evaluates-in-english").class_if(session_checked, "also-through-one-session-switched-between-languages").class_if(c.wcase % 3 != 0 && matches!(c.shape, Shape::OpWord(..)), "operator-word-recased")
     }
@@ -450,6 +465,7 @@ pub fn prog_strategy() -> impl Strategy<Value = Prog> {
         3 => (names(), crate::c09::datelit("tr"), crate::c09::datelit("tr")).prop_map(|(n, a, b)| Prog::DateRange((n[0], a), (n[1], b))),
         2 => (names(), time(), time()).prop_map(|(n, a, b)| Prog::TimeRange((n[0], a), (n[1], b))),
         2 => (parts(), time(), time()).prop_map(|(p, a, b)| Prog::DurThenRange(p, a, b)),
+        2 => (1u32..=500, prop::bool::weighted(0.2), 0u8..7, 1u32..=40).prop_map(|(n, pct, unit, m)| Prog::PerWord(n, pct, unit, m)),
         // (years below 32 are left out: in English `29 feb 28 24 weeks` also reads as the month-first date `feb 28, 24`)
         3 => (crate::c09::datelit("tr"), 0u32..=40, 0u8..4, 0u8..2).prop_map(|(d, n, u, sp)| Prog::DateThenDur(crate::c09::DateLit { y: d.y.map(|y| if y < 32 { y + 1990 } else { y }), ..d }, n, u, sp)),
     ]
@@ -489,7 +505,7 @@ pub fn table() -> Vec<Case> {
 }
 
 pub fn run(ctx: &Ctx) {
-    ctx.rule("sentence templates whose words are slots filled per language from config.json (keyed by operator / constant id / month number): operator words (times|multiply <-> çarpı|carpi|kere|çarp|carp, add|sum|append <-> ekle|topla|toplam, minus|exclude <-> eksi|çıkar|cikar|çıkart|cikart) between numbers, money and durations, duration sums and differences with every unit word, dates in every month-name spelling, date +- duration, date differences (A to B <-> A B arası), today|tomorrow|yesterday; programs with values held in names of one or two words (ilk tarih, vardiya başı): 2-4 duration names in a row (= their sum), 'A to B' <-> 'A B arası' between two date names or two time names, written durations followed by a time range, a date directly followed by a written duration (12 march 3 days = 12 march + 3 days) - the last line must also equal the same line written without the names; and word-free lines (arithmetic, percentages, money literals / juxtaposed conversion / arithmetic, variable programs) evaluated unchanged in every configured language; oracle: the value in every other language equals the English value exactly; dates and durations are printed with that language's own month names and unit words (parsed back with its word lists into the same day/month/year resp. (count, unit) parts); every other kind prints identically; an exhaustive table covers every operator word, every month name and every duration word; non-trivial = the line evaluates in English and contains a translated word, or is word-free and evaluates to a non-number kind");
+    ctx.rule("sentence templates whose words are slots filled per language from config.json (keyed by operator / constant id / month number): operator words (times|multiply <-> çarpı|carpi|kere|çarp|carp, add|sum|append <-> ekle|topla|toplam, minus|exclude <-> eksi|çıkar|cikar|çıkart|cikart) between numbers, money and durations, duration sums and differences with every unit word, dates in every month-name spelling, date +- duration, date differences (A to B <-> A B arası), today|tomorrow|yesterday; programs with values held in names of one or two words (ilk tarih, vardiya başı): 2-4 duration names in a row (= their sum), 'A to B' <-> 'A B arası' between two date names or two time names, written durations followed by a time range, a date directly followed by a written duration (12 march 3 days = 12 march + 3 days), an amount per unit word inside arithmetic (25/hour * 14 <-> 25/saat * 14) - the last line must also equal the same line written without the names; and word-free lines (arithmetic, percentages, money literals / juxtaposed conversion / arithmetic, variable programs) evaluated unchanged in every configured language; oracle: the value in every other language equals the English value exactly; dates and durations are printed with that language's own month names and unit words (parsed back with its word lists into the same day/month/year resp. (count, unit) parts); every other kind prints identically; an exhaustive table covers every operator word, every month name and every duration word; non-trivial = the line evaluates in English and contains a translated word, or is word-free and evaluates to a non-number kind");
     ctx.assume("only features both languages configure are compared (Turkish has no connective words, zone conversion, unix, base, unit conversion or 'at' rules); 'divide' has no Turkish alias");
     ctx.run_table(&Languages, "all-translatable-words", table(), true);
     ctx.run_generated(&Languages, ctx.tier.pick(100_000, 1_000_000), case_strategy);
